@@ -1,10 +1,10 @@
 #!/bin/bash
 # Runs every property's thorough check in sequence and prints a one-line summary per property.
-# Usage: thorough_all.sh [seed]   (honours VERIF_REPO like run.sh)
+# Usage: [PROPS="C01 C07"] thorough_all.sh [seed]   (honours VERIF_REPO like run.sh)
 BASE=$(cd "$(dirname "$0")" && pwd)
 export VERIF_SEED=${1:-1}
 mkdir -p "$BASE/.work"
-for p in C01 C02 C03 C04 C05 C06 C07 C08 C09 C10 C11 C12 C13 C14 C15 C16 C17 C18 C19 C20; do
+for p in ${PROPS:-C01 C02 C03 C04 C05 C06 C07 C08 C09 C10 C11 C12 C13 C14 C15 C16 C17 C18 C19 C20}; do
   start=$(date +%s)
   "$BASE/run.sh" $p thorough > "$BASE/.work/thorough_$p.log" 2>&1
   rc=$?
